@@ -102,6 +102,12 @@ pub fn run(_sub: &str, opts: &Opts, w: &mut dyn Write) {
       let hist: Vec<(u32, u8, bool)> = (0..n).map(|_| { let (a, v) = gen_write(&mut rng); let word = rng.chance(1, 6);
         let a = if word && rng.chance(1, 3) { *rng.pick(&[0xdfffu16, 0xcfff, 0x9fff, 0xbfff, 0xfe9f, 0xfffe, 0xffff, 0x7fff, 0xfdff, 0xff7f]) } else { a };
         if rng.chance(1, 6) { (65536u32, *rng.pick(&[1u8, 7, 71, 72, 73, 74, 75, 76, 80, 100, 150, 255]), false) } else { (a as u32, v, word) } }).collect();
+      // one history in four talks to the cartridge controller only: every order of bank-low / bank-high / mode / RAM-enable
+      // writes, so that the window is read back after each kind of register was the last one written
+      let hist: Vec<(u32, u8, bool)> = if rng.chance(1, 4) {
+        (0..3 + rng.below(6)).map(|_| (*rng.pick(&[0x0000u32, 0x2000, 0x2100, 0x3fff, 0x4000, 0x5000, 0x5fff, 0x6000, 0x7000, 0x7fff]),
+          *rng.pick(&[0u8, 1, 2, 3, 5, 0x0a, 0x1f, 0x20, 0x21, 0x40, 0x60, 0x7f, 0xff]), false)).collect()
+      } else { hist };
       if idx % nshards != shard { continue; }
       let mut mem = mk_mem(t, r, m, &[]);
       let p = &mut mem as *mut MemoryAreas;
